@@ -205,7 +205,9 @@ def run_recovered(case, prop, sweep, direction="out"):
                 rng.shuffle(ks)
                 # bias: cuts that leave stubs written and inbound lists behind
                 pref = [k for k in ks if CR.classify_cut(log, k) in ("cut_between_stubs_and_pointer_rewrite", "cut_inside_stub_run", "cut_other")]
-                ks = (pref[: rec.get("cuts", 4)] + ks[:2])[: rec.get("cuts", 4) + 2]
+                # ... and cuts next to a truncation (a clear or an overwrite caught half-way)
+                near_trunc = [k for k in ks if (k < n and log[k][2] in ("truncate", "resize")) or log[k - 1][2] in ("truncate", "resize")]
+                ks = (near_trunc[:2] + pref[: rec.get("cuts", 4)] + ks[:2])[: rec.get("cuts", 4) + 3]
                 for k in sorted(set(ks)):
                     i = owner[k - 1]
                     rules = dict(snaps[i - 1][2]) if i >= 1 else {}
